@@ -62,7 +62,9 @@ def to_floor_spec(case):
         devs.append(d)
     devs.append({'k': 'sink', 'n': 'K0', 'up': [prev], 'ct': case['sink']['ct']})
     return {'engine': 'floorsim', 'devices': devs, 'resources': {}, 'maintainer': None, 'ops': [],
-            'plan': [case['horizon']], 'tiebreak': case['tiebreak'], 'id_offset': case.get('id_offset', 0)}
+            'plan': list(case['plan']) if case.get('plan') and sum(case['plan']) == case['horizon'] else [case['horizon']],
+            'tiebreak': case['tiebreak'],
+            'id_offset': case.get('id_offset', 0)}
 
 
 def run_case(case):
@@ -80,7 +82,10 @@ def run_case(case):
     except Exception as e:
         if not core.raised_in_library(e):
             raise
-        raise Aborted(f'library raised {type(e).__name__}: {e}', f.stats)
+        v = Violation('C04.x', f'exception escaped the simulation of a serial line: {type(e).__name__}: {e}',
+                      step=f.step_no, time=getattr(f.env, 'now', None), extra={'kind': 'exception', 'exc': type(e).__name__})
+        v.stats = f.stats
+        raise v
     arr, dep0 = reference(case)
     sd = f.env.simulation_data
     names = [d['n'] for d in spec['devices'][1:]]
@@ -157,6 +162,15 @@ def gen_case(rng):
         # a much finer (still exactly representable) grid for the source: arrivals 2**-30 apart meet delays of 1/4 .. 2
         case['source']['ct'] = 2.0 ** -30
         case['source']['parts'] = rng.choice((2, 4, 8))
+    if rng.random() < 0.2 and case['horizon'] > 0:
+        # the same horizon reached by two or three consecutive simulate() calls: the recurrence knows no runs
+        h = case['horizon']
+        cuts = sorted(rng.sample([x * 0.25 for x in range(1, int(h * 4))] or [h / 2], rng.choice((1, 1, 2))) if h * 4 > 2 else [h / 2])
+        plan, prev = [], 0
+        for c in cuts + [h]:
+            plan.append(c - prev)
+            prev = c
+        case['plan'] = plan
     return case
 
 
@@ -173,6 +187,14 @@ EXAMPLES = [
 
 def shrink(case):
     st = case['stations']
+    if case.get('plan'):
+        c = dict(case)
+        del c['plan']
+        yield c
+        if len(case['plan']) > 2:
+            c = dict(case)
+            c['plan'] = [case['plan'][0], sum(case['plan'][1:])]
+            yield c
     for i in range(len(st)):
         c = dict(case)
         c['stations'] = st[:i] + st[i + 1:]
@@ -182,6 +204,7 @@ def shrink(case):
         for h in (case['horizon'] / 2, case['horizon'] - 1):
             c = dict(case)
             c['horizon'] = int(h * 4) / 4
+            c.pop('plan', None)
             if c['horizon'] > 0:
                 yield c
     if case['source']['parts'] is None or case['source']['parts'] > 3:
